@@ -188,6 +188,41 @@ def evaluate_invariance(case):
     return Outcome(True, walk and len(case["text"]) >= 2, labels)
 
 
+@st.composite
+def reuse_cases(draw, tier):
+    first = draw(gens.coding_graphs(1, 3, weights={1: 1, 2: 3, 3: 2}))
+    k = first["k"]
+    second = draw(gens.coding_graphs(k, k))
+    return {"graphs": [first, second, first], "table": draw(gens.tables(k, allow_none=False)),
+            "bits": [draw(gens.messages(24, min_len=1)) for _ in range(3)], "fast": draw(st.booleans())}
+
+
+def evaluate_reuse(case):
+    """The caller keeps ONE table object and uses it with several graphs of the same order, one after the other."""
+    import numpy
+    dsw = import_dsw()
+    table = numpy.array(gens.table_rows(case["table"]), dtype=int)  # a private object, deliberately not pooled
+    original = table.copy()
+    for graph, bits in zip(case["graphs"], case["bits"]):
+        rows, k, start = graph["rows"], graph["k"], graph["start"]
+        fast = case["fast"] and not any(o.out_degree(rows, v) == 3 for v in o.reachable(rows, k, start))
+        acc = gens.accessor_of(graph)
+        strand = lib_call(dsw.encode, _twice=False, binary_message=gens.bits_of(bits), accessor=acc, start_index=start,
+                          shuffles=table, is_faster=fast)
+        if isinstance(strand, Raised) or not o.is_walk(rows, k, start, strand):
+            return bad("with a table object that was used on another graph before, encode gives %r, which is not a "
+                       "walk of the current graph (k=%d start=%d bits=%s)" % (strand, k, start, bits), ["reuse"])
+        back = lib_call(dsw.decode, _twice=False, dna_sequence=strand, bit_length=len(bits), accessor=acc,
+                        start_index=start, shuffles=table, is_faster=fast)
+        if isinstance(back, Raised) or "".join(str(int(x)) for x in back) != bits:
+            return bad("with a re-used table object decode(encode(%s)) = %r" % (bits, back), ["reuse"])
+        if not numpy.array_equal(table, original):
+            return bad("encode/decode changed the caller's shuffle table: row %d is now %r"
+                       % (int(numpy.nonzero((table != original).any(axis=1))[0][0]),
+                          table[int(numpy.nonzero((table != original).any(axis=1))[0][0])].tolist()), ["reuse"])
+    return Outcome(True, True, ["reuse", "k=%d" % case["graphs"][0]["k"], "fast" if case["fast"] else "normal"])
+
+
 SUBCHECKS = [
     SubCheck("tables", evaluate_table, strategy=table_cases, examples=(600, 8000), shards=(8, 16),
              floors={"seed=0": 20, "k=6": 20}, rule=RULE),
@@ -200,6 +235,8 @@ SUBCHECKS = [
              rule=RULE),
     SubCheck("walk_invariance", evaluate_invariance, strategy=invariance_cases, examples=(1500, 15000),
              shards=(8, 16), floors={"walk": 300, "not_walk": 300}, rule=RULE),
+    SubCheck("table_reused_across_graphs", evaluate_reuse, strategy=reuse_cases, examples=(500, 5000), shards=(8, 16),
+             rule=RULE),
 ]
 
 TECHNIQUE = ("complete enumeration of permutation x live-pattern x digit through encode/decode, plus property-based "
